@@ -12,7 +12,7 @@ import (
 func init() {
 	register(&propInfo{
 		ID:          "C10",
-		Explanation: "Static index-safety and key-hygiene analysis of every place where bytes decoded from a peer steer an operation that can panic: (R10.1) every index into a slice filled by a JSON decode is dominated by a length test that makes it in-range; (R10.2) every interface-typed key used on the per-connection tables originates from the id normaliser (or from locally generated requests); (R10.3) the frame executor dispatches only on the nil branches of both the frame-decode error and the id-normalisation error; (R10.4) results of comma-ok table lookups are used only on the found branch; (R10.5) the HTTP body is read through a limit strictly above the configured maximum, rejected exactly when it exceeds that maximum, and the rejection reaches neither a decoder nor the dispatcher; (R10.6) type assertions on decoded interface values use the comma-ok form. R10.1 also tracks tails s[k:] of decoded slices (in place or returned by a helper) with the known length minus k. (R10.9) a completion is delivered at most once per in-flight entry. (R10.10) no possibly-nil handler pointer is wrapped into the dispatcher interface.",
+		Explanation: "Static index-safety and key-hygiene analysis of every place where bytes decoded from a peer steer an operation that can panic: (R10.1) every index into a slice filled by a JSON decode is dominated by a length test that makes it in-range; (R10.2) every interface-typed key used on the per-connection tables originates from the id normaliser (or from locally generated requests); (R10.3) the frame executor dispatches only on the nil branches of both the frame-decode error and the id-normalisation error; (R10.4) results of comma-ok table lookups are used only on the found branch; (R10.5) the HTTP body is read through a limit strictly above the configured maximum, rejected exactly when it exceeds that maximum, and the rejection reaches neither a decoder nor the dispatcher; (R10.6) type assertions on decoded interface values use the comma-ok form. R10.1 also tracks tails s[k:] of decoded slices (in place or returned by a helper) with the known length minus k. (R10.9) a completion is delivered at most once per in-flight entry. (R10.10) no possibly-nil handler pointer is wrapped into the dispatcher interface. (R10.11) a pooled request buffer is Reset on every way from Get to Put.",
 		NotDecided:  "Memory exhaustion by huge WebSocket frames (no read limit is configured by the library), panics inside user-supplied codecs, indexes into slices whose length is tied to the index by library invariants rather than by a local test (e.g. bytes.Buffer length), and whether a server keeps answering (liveness).",
 		Assumptions: []string{
 			"a slice is peer-sized when it is a local filled by encoding/json.Unmarshal or (*json.Decoder).Decode",
@@ -1100,7 +1100,7 @@ func (c *Ctx) sizeRule(rule string) {
 			}
 			found = true
 			construct := fmt.Sprintf("%s: body size limit", fname(fn))
-			limF, c1, ok := fieldPlusConst(call.Common().Args[1])
+			limF, c1, ok := c.limitExpr(call.Common().Args[1], 0)
 			if !ok {
 				c.und(rule, construct, c.ipos(call), "read limit is not of the form <configured field> + constant")
 				return
@@ -1117,9 +1117,9 @@ func (c *Ctx) sizeRule(rule string) {
 				default:
 					return
 				}
-				if f, _, ok := fieldPlusConst(bo.Y); ok && f == limF {
+				if f, _, ok := c.limitExpr(bo.Y, 0); ok && f == limF {
 					cmp = bo
-				} else if f, _, ok := fieldPlusConst(bo.X); ok && f == limF {
+				} else if f, _, ok := c.limitExpr(bo.X, 0); ok && f == limF {
 					cmp = bo
 				}
 			})
@@ -1129,12 +1129,10 @@ func (c *Ctx) sizeRule(rule string) {
 			}
 			// normalise to: reject iff n > M + c2
 			op, nSide, mSide := cmp.Op, cmp.X, cmp.Y
-			if _, _, ok := fieldPlusConst(cmp.X); ok {
-				if f, _, _ := fieldPlusConst(cmp.X); f == limF {
-					op, nSide, mSide = flip(cmp.Op), cmp.Y, cmp.X
-				}
+			if f, _, ok := c.limitExpr(cmp.X, 0); ok && f == limF {
+				op, nSide, mSide = flip(cmp.Op), cmp.Y, cmp.X
 			}
-			_, cm, _ := fieldPlusConst(mSide)
+			_, cm, _ := c.limitExpr(mSide, 0)
 			if !countFromLimitedRead(nSide, call) {
 				c.bad(rule, construct, c.ipos(cmp), "the value compared with the maximum is not the number of bytes read through the limit (e.g. a length taken after trimming): padded oversize bodies pass")
 				return
@@ -1145,6 +1143,10 @@ func (c *Ctx) sizeRule(rule string) {
 				if i, ok := ref.(*ssa.If); ok {
 					iff = i
 				}
+			}
+			if iff == nil {
+				// the verdict is handed to the caller as a boolean result and tested there
+				iff = c.verdictTestInCaller(cmp)
 			}
 			if iff == nil {
 				c.und(rule, construct, c.ipos(cmp), "size comparison does not steer a branch")
@@ -1211,6 +1213,114 @@ func (c *Ctx) sizeRule(rule string) {
 	if !found {
 		c.bad(rule, "HTTP body reader: size limit", "-", "the HTTP request body is not read through io.LimitReader any more: no maximum request size is enforced")
 	}
+}
+
+// limitExpr: v as <configured field> + constant. A parameter stands for what every caller passes
+// for it (all callers must agree).
+func (c *Ctx) limitExpr(v ssa.Value, depth int) (*types.Var, int64, bool) {
+	v = stripConvInt(v)
+	if depth > 3 {
+		return nil, 0, false
+	}
+	switch x := v.(type) {
+	case *ssa.BinOp:
+		if x.Op != token.ADD && x.Op != token.SUB {
+			return nil, 0, false
+		}
+		if k, ok := constInt(stripConvInt(x.Y)); ok {
+			if f, c0, ok := c.limitExpr(x.X, depth); ok {
+				if x.Op == token.SUB {
+					k = -k
+				}
+				return f, c0 + k, true
+			}
+		}
+		if k, ok := constInt(stripConvInt(x.X)); ok && x.Op == token.ADD {
+			if f, c0, ok := c.limitExpr(x.Y, depth); ok {
+				return f, c0 + k, true
+			}
+		}
+		return nil, 0, false
+	case *ssa.Parameter:
+		fn := x.Parent()
+		idx := -1
+		for i, pa := range fn.Params {
+			if pa == x {
+				idx = i
+			}
+		}
+		callers := c.P.syncCallers(fn)
+		if idx < 0 || len(callers) == 0 || c.P.asyncUsed(fn) {
+			return nil, 0, false
+		}
+		var f0 *types.Var
+		var k0 int64
+		for i, call := range callers {
+			args := call.Common().Args
+			if idx >= len(args) {
+				return nil, 0, false
+			}
+			f, k, ok := c.limitExpr(args[idx], depth+1)
+			if !ok || (i > 0 && (f != f0 || k != k0)) {
+				return nil, 0, false
+			}
+			f0, k0 = f, k
+		}
+		return f0, k0, true
+	}
+	return fieldPlusConst(v)
+}
+
+// verdictTestInCaller: the comparison is returned as a boolean result; the branch that it steers
+// is the test of that result in the (single) caller.
+func (c *Ctx) verdictTestInCaller(cmp *ssa.BinOp) *ssa.If {
+	fn := cmp.Parent()
+	idx := -1
+	for _, ref := range *cmp.Referrers() {
+		ret, ok := ref.(*ssa.Return)
+		if !ok {
+			continue
+		}
+		for i, rv := range ret.Results {
+			if rv == ssa.Value(cmp) {
+				idx = i
+			}
+		}
+	}
+	callers := c.P.syncCallers(fn)
+	if idx < 0 || len(callers) != 1 || c.P.asyncUsed(fn) {
+		return nil
+	}
+	// every return passes the comparison itself or the constant false next to an error
+	for _, b := range fn.Blocks {
+		ret, ok := b.Instrs[len(b.Instrs)-1].(*ssa.Return)
+		if !ok || idx >= len(ret.Results) {
+			continue
+		}
+		if rv := ret.Results[idx]; rv != ssa.Value(cmp) {
+			if k, ok := rv.(*ssa.Const); !ok || k.Value == nil || k.Value.String() != "false" {
+				return nil
+			}
+		}
+	}
+	var res ssa.Value = callers[0]
+	if fn.Signature.Results().Len() > 1 {
+		res = nil
+		for _, ref := range *callers[0].Referrers() {
+			if ex, ok := ref.(*ssa.Extract); ok && ex.Index == idx {
+				res = ex
+			}
+		}
+	}
+	if res == nil {
+		return nil
+	}
+	for _, ref := range *res.Referrers() {
+		if i, ok := ref.(*ssa.If); ok {
+			return i
+		}
+	}
+	return nil
 }
 
 // countFromLimitedRead: n is the byte count of the read that consumed the LimitReader
